@@ -260,12 +260,13 @@ def outreg_cases(rng, n):
         nwo = rng.choice([8, 16, 24, 40]) if narrow else rng.choice([64, 65, 72, 100, 128]); nfo = rng.choice([0, 1, 16, 30, 40, 63, 64, rng.randint(0, nwo)]) if not narrow else rng.choice([0, 0, 1, fxm[2] + fym[2]])
         def code(fm):
             lo, hi = S.fmt_bounds(fm[0], fm[1]); return rng.choice([lo, hi, hi - 1, lo + 1, rng.randint(lo, hi), rng.randint(lo, hi)])
-        op = rng.choice(['+', '-', '*', '*', 'sum', 'max'])
+        op = rng.choice(['+', '-', '*', '*', 'sum', 'max', 'dot', 'prod', 'cumsum'])
         more = []
-        if op in ('sum', 'max'):
-            if rng.random() < 0.5:
+        if op in ('sum', 'max', 'dot', 'prod', 'cumsum'):
+            if rng.random() < 0.5 or op in ('dot', 'prod', 'cumsum'):
                 # a reduction whose raw result needs more than 53 bits and is rescaled by a negative power of two (fewer fraction bits in the register)
-                nw = rng.choice([52, 53, 56, 60, rng.randint(45, 60)]); fxm = [rng.random() < 0.6, nw, rng.choice([1, 2, 8, nw // 2, nw])]
+                nw = rng.choice([52, 53, 56, 60, 62, 63, rng.randint(45, 63)]) if op in ('sum', 'max', 'cumsum') else rng.choice([20, 31, 32, 33, 40, 48, 52, rng.randint(12, 60)])
+                fxm = [rng.random() < 0.6, nw, rng.choice([1, 2, 8, nw // 2, nw])]
                 nfo = max(0, fxm[2] - rng.choice([1, 1, 2, 3, rng.randint(1, 12)]))
                 more = [code(fxm) for _ in range(rng.choice([0, 1, 2]))]
             fym = fxm        # (a reduction of an array [cx, cy, ...] held in one format)
@@ -277,7 +278,7 @@ def outreg_cases(rng, n):
 def run_outreg(cases, res):
     """x (op) y on operands of at most 52 bits, stored through out= into a wrap register of 64 bits or more (any fraction length):
     the register holds the residue of the exact result, whatever the size of the rescaled intermediate"""
-    fx = lib.impl()
+    fx = lib.impl(); import numpy as np
     pend = []; reqs = []
     for c in cases:
         try:
@@ -287,36 +288,48 @@ def run_outreg(cases, res):
             elif c.get('build') == 'array':
                 x = fx.Fxp([c['cx']], *c['x'], raw=True); y = fx.Fxp([c['cy']], *c['y'], raw=True)
             out = fx.Fxp(None, *c['out'], overflow='wrap', rounding=c['r'])
-            if c['op'] in ('sum', 'max'):
+            if c['op'] in ('sum', 'max', 'dot', 'prod', 'cumsum'):
                 xa = fx.Fxp([c['cx'], c['cy']] + c.get('more', []), *c['x'], raw=True)
-                z = (fx.sum if c['op'] == 'sum' else fx.fxp_max)(xa, out=out)
+                if c['op'] == 'dot': z = fx.dot(xa, xa, out=out)
+                elif c['op'] == 'prod': z = fx.prod(xa, out=out)
+                elif c['op'] == 'cumsum':
+                    out = fx.Fxp(np.zeros(np.asarray(xa.val).shape), *c['out'], overflow='wrap', rounding=c['r']); z = fx.cumsum(xa, out=out)
+                else: z = (fx.sum if c['op'] == 'sum' else fx.fxp_max)(xa, out=out)
             elif c['route'] == 'out':
                 z = {'+': fx.add, '-': fx.sub, '*': fx.mul}[c['op']](x, y, out=out)
             else:
                 x.config.op_out = out
                 z = x + y if c['op'] == '+' else (x - y if c['op'] == '-' else x * y)
-            got = (lib.codes_of(z)[0], z is out, (bool(z.signed), int(z.n_word), int(z.n_frac)))
+            got = (lib.codes_of(z)[-1], z is out, (bool(z.signed), int(z.n_word), int(z.n_frac)))      # (cumsum: the last prefix sum = the sum)
         except Exception as e:
             res.fail(c, 'C03: arithmetic into a wide wrap register raised %s' % lib.exc_name(e), got=str(e)[:200]); continue
         xv = Fraction(c['cx'], 1) / (1 << c['x'][2]); yv = Fraction(c['cy'], 1) / (1 << c['y'][2])
         ex = xv + yv if c['op'] in ('+', 'sum') else (xv - yv if c['op'] == '-' else (max(xv, yv) if c['op'] == 'max' else xv * yv))
-        if c['op'] in ('sum', 'max'):
+        if c['op'] in ('sum', 'max', 'dot', 'prod', 'cumsum'):
             mv = [Fraction(m, 1) / (1 << c['x'][2]) for m in c.get('more', [])]
-            ex = sum(mv, ex) if c['op'] == 'sum' else max([ex] + mv)
-        pend.append((c, got, lib.status3(z))); reqs.append([4] + e_fmt(*c['out']) + [RMODES.index(c['r']), 1] + e_list([ex], e_dy))
+            if c['op'] in ('sum', 'cumsum'): ex = sum(mv, xv + yv)
+            elif c['op'] == 'max': ex = max([xv, yv] + mv)
+            elif c['op'] == 'dot': ex = sum(v * v for v in [xv, yv] + mv)
+            else:
+                ex = xv * yv
+                for v in mv: ex *= v
+        exs = [ex]
+        if c['op'] == 'cumsum':       # every prefix sum is stored: the flags are those of all of them, the last code is the sum
+            allv = [xv, yv] + mv; exs = [sum(allv[:k + 1], Fraction(0)) for k in range(len(allv))]
+        pend.append((c, got, lib.status3(z))); reqs.append([4] + e_fmt(*c['out']) + [RMODES.index(c['r']), 1] + e_list(exs, e_dy))
         # the arithmetic model (raw method into the imposed format: Python integers, exact rationals for a negative rescale)
-        reqs.append([41, {'+': 0, '-': 1, '*': 2, 'sum': 0, 'max': 0}[c['op']]] + e_fmt(*c['x']) + e_list([c['cx']]) + e_fmt(*c['y']) + e_list([c['cy']]) + e_fmt(*c['out']) + [RMODES.index(c['r']), 1])
+        reqs.append([41, {'+': 0, '-': 1, '*': 2}.get(c['op'], 0)] + e_fmt(*c['x']) + e_list([c['cx']]) + e_fmt(*c['y']) + e_list([c['cy']]) + e_fmt(*c['out']) + [RMODES.index(c['r']), 1])
     outs = model_call(reqs)
     for i, (c, got, st3) in enumerate(pend):
         o = outs[2 * i]; mo = S.read_model_store(outs[2 * i + 1])
-        rd = Reader(o); want = rd.lst(rd.z)[0]; wflags = (rd.b(), rd.b())
+        rd = Reader(o); want = rd.lst(rd.z)[-1]; wflags = (rd.b(), rd.b())
         res.count('G:narrow-operands-into-wide-register', key=repr(c), nontrivial=True)
         res.sample(c)
         if got == (want, True, tuple(c['out'])) and st3[:2] != wflags:
             res.fail(c, 'C03: arithmetic stored through out= into a wrap register: the overflow / underflow flags are not those of the exact result (an intermediate wrapped)', expected=wflags, got=st3[:2]); continue
         if got != (want, True, tuple(c['out'])):
             res.fail(c, 'C03: arithmetic stored through out= into a wrap register of 64 bits or more is not the residue of the exact result', expected=(want, True, tuple(c['out'])), got=got); continue
-        if c['op'] in ('sum', 'max'): continue           # (reductions into a register: compared with the Spec only)
+        if c['op'] not in '+-*': continue           # (reductions into a register: compared with the Spec only)
         if mo['kind'] != 'ok' or mo['codes'] != [got[0]] or mo['status'][:2] != st3[:2]:
             res.fail(c, 'model Arith.arith_raw disagrees with the implementation although the Spec agrees (wide register)', expected=str(mo)[:200], got=(got[0], st3))
             res.failures[-1]['no_input'] = True
